@@ -302,6 +302,17 @@ func init() {
 		}
 		return nil
 	})
+	V("Released", func(g *G, a []Value, pos token.Pos) Value {
+		if g.vm.ledger == nil {
+			panic(unsupported("verif.Released without ledger"))
+		}
+		p := msgPtr(a[0])
+		if p == nil {
+			return mkBool(false)
+		}
+		mi := g.vm.ledger.msgs[p]
+		return mkBool(mi != nil && mi.released)
+	})
 	V("Concretize", func(g *G, a []Value, pos token.Pos) Value {
 		return mkInt(g.concretize(a[0].(IntV), "harness"))
 	})
